@@ -413,3 +413,28 @@ package bug
 //@ func Close
 //@   props C10 C16
 //@   assert at `b.Append(op)` [only-a-validated-operation-is-appended] dag.baseChecked == op && dag.baseCheckedOK
+
+// Read-only lookups of the compiled state (C10): a timeline item is found by its combined id - the first one that
+// carries it -, and an author is an actor / a participant exactly when one of the listed identities has their id.
+//@ func (*Snapshot).SearchTimelineItem
+//@   props C10
+//@   requires snap != nil && (forall k int :: { snap.Timeline[k] } 0 <= k && k < len(snap.Timeline) ==> snap.Timeline[k] != nil)
+//@   modifies nothing
+//@   ensures [first-match] result1 == nil ==> (exists k int :: { snap.Timeline[k] } 0 <= k && k < len(snap.Timeline) && snap.Timeline[k].CombinedId() == id && result == snap.Timeline[k] && (forall j int :: { snap.Timeline[j] } 0 <= j && j < k ==> snap.Timeline[j].CombinedId() != id))
+//@   ensures [not-found] result1 != nil ==> (forall k int :: { snap.Timeline[k] } 0 <= k && k < len(snap.Timeline) ==> snap.Timeline[k].CombinedId() != id)
+//@   loop 1
+//@     invariant forall k int :: { snap.Timeline[k] } 0 <= k && k <= rangeindex ==> snap.Timeline[k].CombinedId() != id
+//@ func (*Snapshot).HasParticipant
+//@   props C10
+//@   requires snap != nil && (forall k int :: { snap.Participants[k] } 0 <= k && k < len(snap.Participants) ==> snap.Participants[k] != nil)
+//@   modifies nothing
+//@   ensures [member-by-id] result == (exists k int :: { snap.Participants[k] } 0 <= k && k < len(snap.Participants) && snap.Participants[k].Id() == id)
+//@   loop 1
+//@     invariant forall k int :: { snap.Participants[k] } 0 <= k && k <= rangeindex ==> snap.Participants[k].Id() != id
+//@ func (*Snapshot).HasActor
+//@   props C10
+//@   requires snap != nil && (forall k int :: { snap.Actors[k] } 0 <= k && k < len(snap.Actors) ==> snap.Actors[k] != nil)
+//@   modifies nothing
+//@   ensures [member-by-id] result == (exists k int :: { snap.Actors[k] } 0 <= k && k < len(snap.Actors) && snap.Actors[k].Id() == id)
+//@   loop 1
+//@     invariant forall k int :: { snap.Actors[k] } 0 <= k && k <= rangeindex ==> snap.Actors[k].Id() != id
